@@ -503,7 +503,10 @@ def emit_cpp(d, cfg, opts=None, fe="functor"):
         L.append("  case %d: return (long)f.process_event(%s(p));" % (k, en))
     L.append("  default: return -1; } }")
     if d.flags:
-        body = ' << "," << '.join('(f.template is_flag_active<Fl<%d> >() ? "true" : "false")' % (k + 1) for k in range(len(d.flags)))
+        # the default (OR) answers first, then the answers with the AND operator
+        andop = "boost::msm::backmp11::flag_and" if mp11 else "typename F::Flag_AND"
+        body = ' << "," << '.join(['(f.template is_flag_active<Fl<%d> >() ? "true" : "false")' % (k + 1) for k in range(len(d.flags))] +
+                                  ['(f.template is_flag_active<Fl<%d>, %s >() ? "true" : "false")' % (k + 1, andop) for k in range(len(d.flags))])
         L.append('template <class F> std::string vrt::flags_of(const F& f) { std::ostringstream o; o << "[" << %s << "]"; return o.str(); }' % body)
     else:
         L.append('template <class F> std::string vrt::flags_of(const F&) { return "[]"; }')
